@@ -83,7 +83,7 @@ def putObjs (w : World) (os : List (Bytes × Bytes)) : World := os.foldl (fun w 
 
 def putBlob (H : HashFn) (w : World) (data : Bytes) : World := putObj w (Obj.id H .blob data) (Obj.encode .blob data)
 
-def treeDepth : Nat := 64
+def treeDepth : Nat := 18446744073709551616   -- 2^64: nesting is bounded by the address space, not by the model
 
 /-- a stored commit, read the way `getHeadCommit` / `Head.Reset` read it -/
 def commitAt (H : HashFn) (w : World) (id : Bytes) : Option Commit :=
